@@ -20,5 +20,8 @@ def fill(add, not_yet):
     add("C18", "wiring table regenerated from make_views' real output on every run and re-checked by the Lean kernel (decide) against the wiring model + Lean theorems (reverse twice, reciprocal involution, view ordering/uniqueness) + exact correspondence of make_viewnames / make_paths / Path.reverse",
         "Proof by translation: the views arim returns for every set-up (immersion, 8 contact variants, 0-2 reflections, unique on/off) are translated to a Lean table and `wired_ok` is re-proved by the kernel on every run, so a wiring change breaks the proof itself; general theorems cover name ordering, reciprocity classes and path reversal; an independent Python oracle restates the wiring rules.",
         STD_NOTE + "The translator (harness/c18.py: object identity -> wall/material names) is trusted.")
-    for p in ["C02","C03","C04","C05","C06","C07","C08","C09","C10","C11","C12","C14","C16","C17","C19"]:
+    add("C14", "Lean 4 state-machine model of the cache wrapper and the 17 methods + theorems (counter-history for the pre-fix code, transparency for the current code) + history correspondence (answers, cache keys, final keys) + bitwise comparison with a fresh uncached object",
+        "Proof on the state machine that carries answer classes, error kinds, cache and final keys; random histories are run on a real cached RayGeometry and on the model and compared after every operation; every numerical answer is compared bit for bit with a fresh uncached object and every array is checked read-only.",
+        STD_NOTE + "Numerical values are abstracted to classes in the model; their equality is checked against the uncached object, not proved.")
+    for p in ["C02","C03","C04","C05","C06","C07","C08","C09","C10","C11","C12","C16","C17","C19"]:
         not_yet[p] = "check not built yet in this round (work in progress; Lean-4 proof + correspondence planned, see DESIGN.md section 6)"
